@@ -31,7 +31,7 @@ Qed.
 
 Theorem roundtrip_fuel : forall tt fmt s T s' T1,
   ph_wf tt fmt s -> no_pua T -> room tt fmt s T -> do_tree tt fmt s T = (s', T1) ->
-  forall fuel, (xsize T < fuel)%nat ->
+  forall fuel, (xheight T < fuel)%nat ->
     exists T2, undo_tree_fuel fuel s' T1 = Ok T2 /\ tree_equiv T2 T.
 Proof.
   intros tt fmt s T s' T1 (I & G & N) NP R E fuel LF. unfold room in R. rewrite E in R. cbn [fst] in R.
@@ -249,18 +249,35 @@ Proof.
   intros s f f' hp e r L H. induction L as [|f' L IH]; [exact H | apply undo_element_mono1; exact IH].
 Qed.
 
+Lemma undo_tree_fuel_mono : forall s f f' T r, (f <= f')%nat -> undo_tree_fuel f s T = Ok r -> undo_tree_fuel f' s T = Ok r.
+Proof.
+  intros s f f' T r L H. unfold undo_tree_fuel in *. apply bind_ok_inv in H. destruct H as (x & Hx & H).
+  rewrite (undo_element_mono s f f' _ _ _ L Hx). exact H.
+Qed.
+
+Lemma undo_tree_eq : forall s T, undo_tree s T = undo_tree_fuel (default_fuel s T) s T.
+Proof. reflexivity. Qed.
+
 (* With the default fuel, undo_tree either runs out of fuel or returns the document. *)
 Theorem roundtrip_default_fuel : forall tt fmt s T s' T1 T2,
   ph_wf tt fmt s -> no_pua T -> room tt fmt s T -> do_tree tt fmt s T = (s', T1) ->
   undo_tree s' T1 = Ok T2 -> tree_equiv T2 T.
 Proof.
-  intros tt fmt s T s' T1 T2 W NP R E U.
-  destruct (roundtrip_fuel tt fmt s T s' T1 W NP R E (default_fuel s' T1 + S (xsize T))%nat ltac:(lia)) as (T3 & U3 & EQ).
-  unfold undo_tree, undo_tree_fuel in *.
-  apply bind_ok_inv in U. destruct U as (r & Ur & U).
-  assert (L : (default_fuel s' T1 <= default_fuel s' T1 + S (xsize T))%nat) by lia.
-  rewrite (undo_element_mono s' _ _ _ _ _ L Ur) in U3.
-  cbn [bind] in U3. congruence.
+  intros tt fmt s T s' T1 T2 W NP R E U. rewrite undo_tree_eq in U. revert U. generalize (default_fuel s' T1). intros f0 U.
+  destruct (roundtrip_fuel tt fmt s T s' T1 W NP R E (f0 + S (xheight T))%nat ltac:(lia)) as (T3 & U3 & EQ).
+  assert (L : (f0 <= f0 + S (xheight T))%nat) by lia.
+  pose proof (undo_tree_fuel_mono s' _ _ _ _ L U) as U4. rewrite U4 in U3. inversion U3. subst. exact EQ.
+Qed.
+
+(* undo_tree as it is executed: documents nested less deeply than UNDO_DEPTH *)
+Theorem roundtrip_thm : forall tt fmt s T s' T1,
+  ph_wf tt fmt s -> no_pua T -> room tt fmt s T -> (xheight T < UNDO_DEPTH)%nat ->
+  do_tree tt fmt s T = (s', T1) ->
+  exists T2, undo_tree s' T1 = Ok T2 /\ tree_equiv T2 T.
+Proof.
+  intros tt fmt s T s' T1 W NP R H E. rewrite undo_tree_eq.
+  apply (roundtrip_fuel tt fmt s T s' T1 W NP R E). unfold default_fuel. apply Nat.lt_le_trans with (m := UNDO_DEPTH); [exact H|].
+  apply Nat.le_trans with (m := (UNDO_DEPTH + 2 * tsize T1)%nat); apply Nat.le_add_r.
 Qed.
 
 (* --------------------------- same element, same text, in any later document *)
@@ -482,4 +499,24 @@ Theorem room_sufficient : forall tt fmt s T,
 Proof.
   intros tt fmt s T H. unfold room, do_tree. destruct (dw tt fmt false s [] T) as [[s' mk'] T'] eqn:E. cbn [fst].
   pose proof (dw_ctr tt fmt T _ _ _ _ _ _ E). pose proof (proj1 (cost_bound tt fmt T)). lia.
+Qed.
+
+(* ------------------------ "for any document" is false: private-use characters *)
+(* <p>a&#xE001;b</p>: U+E001 is the built-in close placeholder of diff:insert; a
+   NEW maker that has replaced nothing turns the character into an element. *)
+Definition pua_T1 : xtree := XNode [112] [] (Some [97; 57345; 98]) [] [].
+(* <p>a&#xE002;b</p>: U+E002 is an open placeholder; undo_string runs off the end
+   of the segment list looking for its close (IndexError). *)
+Definition pua_T2 : xtree := XNode [112] [] (Some [97; 57346; 98]) [] [].
+
+Theorem roundtrip_any_document_refuted :
+  (exists T2, room [[112]] [[98]] ph_init pua_T1 /\
+     undo_tree (fst (do_tree [[112]] [[98]] ph_init pua_T1)) (snd (do_tree [[112]] [[98]] ph_init pua_T1)) = Ok T2 /\
+     ~ tree_equiv T2 pua_T1) /\
+  (room [[112]] [[98]] ph_init pua_T2 /\
+     undo_tree (fst (do_tree [[112]] [[98]] ph_init pua_T2)) (snd (do_tree [[112]] [[98]] ph_init pua_T2)) = Err EIndex).
+Proof.
+  split.
+  - eexists. split; [vm_compute; discriminate|]. split; [vm_compute; reflexivity|]. vm_compute. discriminate.
+  - split; [vm_compute; discriminate | vm_compute; reflexivity].
 Qed.
